@@ -4,6 +4,7 @@ package main
 
 import (
 	"fmt"
+	"strings"
 
 	"github.com/NethermindEth/juno/blockchain"
 	"github.com/NethermindEth/juno/core"
@@ -20,6 +21,7 @@ import (
 //   - "store":      the next block is stored (reader opened while block 0 is the head),
 //   - "two-stores": the next two blocks are stored,
 //   - "revert":     the head is reverted (reader opened at head 2, block 2 goes away),
+//
 // for every i until the query makes no i-th access. The answer must be block 0's.
 // One Sig per (backend, query kind, store|revert, access index): a torn read of another kind, or at
 // another access, is a different finding.
@@ -120,6 +122,90 @@ func raceProbe(res *lib.Result, newState bool) {
 								"how": "harness/cmd/c03/race.go: store the first `opened at head`+1 blocks; open the reader of block 0; perform the action from a db hook before the given access of the query"}})
 					}
 				}
+			}
+		}
+	}
+}
+
+// readErrorProbe: a database read error in the middle of ONE query must surface as an error (or not
+// matter); it must never turn into a value or into not-found. Chain of three blocks, every view of
+// blocks 0 and 1 and the head view, every query, the i-th database access of the query fails.
+func readErrorProbe(res *lib.Result, newState bool) {
+	kind := kindName(newState)
+	c0 := hx(&cairo0Fxs[0])
+	blocks := []string{
+		"sa 104 sk 2 1 sk 4 3 d 104 c000 sa 1 sk 2 5",
+		"sa 104 sk 2 2 sk 3 5 sk 4 0 n 104 1 r 104 c001 d 105 c002 sa 105 sk 2 9 c0 " + c0,
+		"sa 104 sk 3 0 n 105 4 sa 1 sk 3 6",
+	}
+	g := lib.NewChainGen(lib.NewRNG(1), newState, lib.DefaultGenOptions())
+	for _, line := range blocks {
+		d, err := decodeDiff("0.13.2", line)
+		if err != nil {
+			res.Fatalf("read-error probe (%s): %v", kind, err)
+			return
+		}
+		if _, err := g.Next(&lib.BlockSpec{Version: d.Version, Diff: d.Diff, Classes: d.Classes, NoTxs: true}); err != nil {
+			res.Fatalf("read-error probe (%s): %v", kind, err)
+			return
+		}
+	}
+	fdb := newFaultDB(newMem())
+	bc := lib.NodeOn(fdb, g.Net, newState)
+	for k := range blocks {
+		if err := lib.StoreOn(bc, g.Bundles[k]); err != nil {
+			res.Fatalf("read-error probe (%s): store of block %d: %v", kind, k, err)
+			return
+		}
+	}
+	a104, a105, a1, a9 := lib.F(0x104), lib.F(0x105), lib.F(1), lib.F(0x999)
+	qs := []query{
+		{Kind: "storage", Addr: a104, Slot: lib.F(2)}, {Kind: "storage", Addr: a104, Slot: lib.F(3)}, {Kind: "storage", Addr: a104, Slot: lib.F(4)},
+		{Kind: "nonce", Addr: a104}, {Kind: "classhash", Addr: a104}, {Kind: "storage", Addr: a105, Slot: lib.F(2)},
+		{Kind: "classhash", Addr: a105}, {Kind: "nonce", Addr: a105}, {Kind: "storage", Addr: a1, Slot: lib.F(2)},
+		{Kind: "storage", Addr: a9, Slot: lib.F(2)}, {Kind: "nonce", Addr: a9}, {Kind: "class", Addr: &cairo0Fxs[0]}, {Kind: "class", Addr: &cairo0Fxs[1]},
+	}
+	type vw struct {
+		label string
+		n     int
+	}
+	for _, v := range []vw{{"num", 0}, {"num", 1}, {"hash", 0}, {"head", 2}} {
+		for _, q := range qs {
+			for i := 1; i <= 40; i++ {
+				var r core.StateReader
+				var err error
+				switch v.label {
+				case "num":
+					r, _, err = bc.StateAtBlockNumber(uint64(v.n))
+				case "hash":
+					r, _, err = bc.StateAtBlockHash(g.Bundles[v.n].Block.Hash)
+				default:
+					r, _, err = bc.HeadState()
+				}
+				if err != nil {
+					res.Fatalf("read-error probe (%s): %s reader of block %d: %v", kind, v.label, v.n, err)
+					return
+				}
+				fdb.failed, fdb.failAt = false, i
+				got := readOne(r, q)
+				fdb.failAt = 0
+				if !fdb.failed {
+					break
+				}
+				st := g.States[v.n]
+				want := expected(st, q, v.label == "head")
+				res.Case(fmt.Sprintf("readerr/%s/%s/%d/%s/%v/%v/%d", kind, v.label, v.n, q.Kind, q.Addr, q.Slot, i), true)
+				res.Hit("readerr:" + kind + ":" + tokClass(got))
+				if strings.HasPrefix(got, "err:") || contains(want, got) {
+					continue
+				}
+				qj := qjson(q)
+				qj["backend"], qj["view"], qj["n"], qj["failing_db_access"], qj["got"], qj["want"] = kind, v.label, v.n, i, got, strings.Join(want, "|")
+				res.Violate(lib.Violation{Sig: fmt.Sprintf("%s-%s-%s-read-error-at-db-access-%d-answered-as-%s", kind, v.label, q.Kind, i, classify(want, got)),
+					What: fmt.Sprintf("%s backend, %s view of block %d: database access #%d of ONE %s query fails; the query answers %s instead of an error (the diffs give %s)",
+						kind, v.label, v.n, i, q.Kind, got, strings.Join(want, "|")),
+					Replay: map[string]any{"blocks": blocks, "query": qj,
+						"how": "harness/cmd/c03/race.go readErrorProbe: store the blocks, open the view, make the given database read access of the query return an error"}})
 			}
 		}
 	}
